@@ -47,6 +47,7 @@ import Mathlib.Algebra.BigOperators.Field
 import QV.Model.Observables
 import QV.Model.States
 import QV.Lemmas.Observables
+import QV.Lemmas.PyFlag
 import QV.Props.C01
 import QV.Props.C02
 import QV.Props.C04
@@ -829,6 +830,59 @@ example : let am : RBM ℝ 2 3 := ⟨fun i j => (i.val : ℝ) - j.val + 0.5, fun
     let psi : Cfg 2 → C ℝ := fun σ => Wave.psiCplx am ph (fun j => bit (σ j))
     ∑ σ, bornPure psi σ * sigmaYApply (ImpState.pure psi) false σ = (expectation psi (magnetOp pauliY)).re :=
   (C08_pure_states _ (fun σ => (C08_rbm_psi_ne_zero _ _ σ).2) 1).2.1
+
+
+/-! ### Constructor flags as the objects the caller passed -/
+
+/-- **`absolute` as an object** (documented as `bool`; `1`, `numpy.bool_`, 0-dim bool arrays / tensors are what callers also pass, and
+the attribute may be reassigned): the observable stores the object and `apply` tests its TRUTH VALUE, so for every object the values
+are the pointwise absolute values of the signed estimator exactly when the object is truthy, the signed estimator itself otherwise,
+and the caller's tensors are untouched either way.  (In the model of a slip that tests `self.absolute is True` the first three clauses
+fail for `PyFlag.npBool true`.) -/
+theorem C08_flag_absolute (S : ImpState ℝ n) (absolute : PyFlag) (h : THeap n) (sid : ℕ) (hs : sid < h.next) :
+    (sigmaXRunF S absolute h sid).2
+        = (h.cells sid).map (fun σ => if absolute.truthy then |sigmaXApply S false σ| else sigmaXApply S false σ)
+      ∧ (sigmaYRunF S absolute h sid).2
+        = (h.cells sid).map (fun σ => if absolute.truthy then |sigmaYApply S false σ| else sigmaYApply S false σ)
+      ∧ (∀ σ : Cfg n, (sigmaZApplyF absolute σ : ℝ)
+          = if absolute.truthy then |sigmaZApply false σ| else sigmaZApply false σ)
+      ∧ (∀ k, k < h.next → (sigmaXRunF S absolute h sid).1.cells k = h.cells k)
+      ∧ (∀ k, k < h.next → (sigmaYRunF S absolute h sid).1.cells k = h.cells k) := by
+  have hm := C08_no_mutation S absolute.truthy h sid hs
+  unfold sigmaXRunF sigmaYRunF sigmaZApplyF
+  refine ⟨?_, ?_, ?_, hm.1.1, hm.2.1⟩
+  · rw [hm.1.2]; cases absolute.truthy
+    · simp
+    · simp only [if_true]; exact List.map_congr_left (fun σ _ => (C08_real S σ).1)
+  · rw [hm.2.2]; cases absolute.truthy
+    · simp
+    · simp only [if_true]; exact List.map_congr_left (fun σ _ => (C08_real S σ).2.1)
+  · intro σ; cases absolute.truthy
+    · simp
+    · simp only [if_true]; exact (C08_real S σ).2.2
+
+/-- **`periodic_bcs` as an object**: for every object passed (and every distance `c ≥ 1`) the call does not raise and the estimator is
+unbiased for the periodic operator exactly when the object is truthy, for the open-chain operator otherwise. -/
+theorem C08_flag_periodic (periodic : PyFlag) (c : ℕ) (hc : 1 ≤ c) {S : ImpState ℝ n} {G : Op n} {p : Cfg n → ℝ}
+    (h : Represents S G p) :
+    ∃ val : Cfg n → ℝ, (∀ σ, neighbourApplyF periodic c σ = .ok (val σ)) ∧
+      ∑ σ, p σ * val σ
+        = (trOp (normalised G) (if periodic.truthy then neighbourPeriodicOp c else neighbourOpenOp c)).re := by
+  unfold neighbourApplyF
+  cases periodic.truthy
+  · simpa using C08_neighbour_open c hc h
+  · exact ⟨fun σ => neighbourPeriodicApply c σ, fun σ => by simp, by simpa using C08_neighbour_periodic c h⟩
+
+/-- whichever kind of object (`form` 0…4) says `b`: the same estimator as with the singleton -/
+theorem C08_flag_any_form (S : ImpState ℝ n) (form : ℕ) (b : Bool) (h : THeap n) (sid : ℕ) (c : ℕ) (σ : Cfg n) :
+    sigmaXRunF S (PyFlag.ofBool form b) h sid = sigmaXRun S b h sid
+      ∧ sigmaYRunF S (PyFlag.ofBool form b) h sid = sigmaYRun S b h sid
+      ∧ (sigmaZApplyF (PyFlag.ofBool form b) σ : ℝ) = sigmaZApply b σ
+      ∧ (neighbourApplyF (PyFlag.ofBool form b) c σ : Except PyErr ℝ)
+          = if b then .ok (neighbourPeriodicApply c σ) else neighbourOpenApply c σ := by
+  unfold sigmaXRunF sigmaYRunF sigmaZApplyF neighbourApplyF
+  rw [PyFlag.truthy_ofBool]
+  exact ⟨rfl, rfl, rfl, rfl⟩
 
 end C08
 end QV.Props
